@@ -49,14 +49,15 @@ MCDecls == <<
   D("InTest",     "iface",       "pkg",    "test"),
   D("Tagged",     "iface",       "pkg",    "tagged") >>
 
-MCNames == {MCDecls[j].name : j \in 1..Len(MCDecls)} \cup {"Missing"}
+\* "reader" / "GEN": names that differ only in case from declared interfaces -- they name nothing in the package
+MCNames == {MCDecls[j].name : j \in 1..Len(MCDecls)} \cup {"Missing", "reader", "GEN"}
 
 \* Go regexp.MatchString semantics (unanchored search)
 MCMatchSets ==
-     "er$"              :> {"Reader", "Writer", "readCloser", "Embedder", "Number", "Handler", "Holder", "InstHolder", "Counter", "NamedOver", "AliasOver", "Streamer", "Stringer", "Keeper", "ReadWriter", "ReadCloser"}
+     "er$"              :> {"Reader", "Writer", "readCloser", "Embedder", "Number", "Handler", "Holder", "InstHolder", "Counter", "NamedOver", "AliasOver", "Streamer", "Stringer", "Keeper", "ReadWriter", "ReadCloser", "reader"}
   @@ "^(Reader|Gen)$"   :> {"Reader", "Gen"}
   @@ "Inst"             :> {"InstDef", "InstDef2", "InstAlias", "InstHolder", "InstEmbed"}
-  @@ "(?i)^read"        :> {"Reader", "readCloser", "ReadWriter", "ReadCloser"}
+  @@ "(?i)^read"        :> {"Reader", "readCloser", "ReadWriter", "ReadCloser", "reader"}
   @@ "."                :> MCNames
   @@ "^[A-Z][a-z]+$"    :> {"Reader", "Writer", "Gen", "Embedder", "Empty", "Grouped", "Number", "Mixed", "Conf", "Handler", "Holder", "Counter", "Local", "Second", "Tagged", "Missing", "Streamer", "Stringer", "Keeper", "Named"}
 
@@ -72,12 +73,13 @@ LV2 == <<E("Reader", "configs", 2), E("InstDef", "config", 0), E("Streamer", "nu
 LV3 == <<E("Conf", "null", 0), E("Gen", "configs", 1)>>
 LV4 == <<E("readCloser", "configs", 0), E("Writer", "configs", 3), E("Keeper", "configs", 2)>>
 LV5 == <<E("Missing", "null", 0), E("Second", "configs", 2)>>
+LV1c == <<E("reader", "null", 0), E("GEN", "configs", 2), E("Writer", "null", 0)>>
 LV1b == <<E("ReadWriter", "null", 0), E("Named", "configs", 2), E("CachedRepo", "config", 0)>>
 LV6 == <<E("Local", "null", 0), E("Handler", "config", 0), E("Embedder", "configs", 2)>>
 LV7 == <<E("AliasOver", "configs", 2), E("Number", "null", 0), E("InTest", "null", 0)>>
 LV8 == <<E("InstHolder", "configs", 2), E("Tagged", "null", 0), E("Empty", "configs", 1), E("Grouped", "config", 0)>>
-MCListedQuick    == {LV0, LV1, LV1b, LV2, LV3, LV4, LV5}
-MCListedThorough == {LV0, LV1, LV1b, LV2, LV3, LV4, LV5, LV6, LV7, LV8}
+MCListedQuick    == {LV0, LV1, LV1b, LV1c, LV2, LV3, LV4, LV5}
+MCListedThorough == {LV0, LV1, LV1b, LV1c, LV2, LV3, LV4, LV5, LV6, LV7, LV8}
 
 \* Impl => Contract for discovery does not depend on the configuration: checked once
 ASSUME DiscoveryRefines(MCDecls)
